@@ -250,7 +250,15 @@ pub fn run_batch<S: Scenario>(
                 .or_else(|| out.violations.iter().find(|x| x.check == v.check))
                 .cloned()
                 .unwrap_or_else(|| v.clone());
-            let path = format!("{}/{}-{}-{}-{}.json", replay_dir, v.check, config, master_seed, i);
+            let path = format!(
+                "{}/{}-{}-{}-{}-{:08x}.json",
+                replay_dir,
+                v.check,
+                config,
+                master_seed,
+                i,
+                crate::core::fnv64_of(v.sig.as_bytes()) as u32
+            );
             let doc = replay_doc(scn, &min_ops, &mv, config, master_seed, *i, seed, &out);
             let wrote = std::fs::create_dir_all(replay_dir).is_ok() && std::fs::write(&path, doc.to_string()).is_ok();
             res.violations.push(FoundViolation {
